@@ -83,6 +83,21 @@ Definition e_run (v : val) : val :=
   | _ => verr
   end.
 
+(* same input; output [[results]; state after the last call] (no per-call snapshots:
+   used for long conversations, e.g. 1000 recipients) *)
+Definition e_final (v : val) : val :=
+  match v with
+  | VL [VN lmtp; VL exts; VL chunks; VL ops] =>
+      match dec_ops ops with
+      | Some os =>
+          let '(st, rs) := run udigit uspace os
+                               (init (negb (lmtp =? 0)) (map get_b exts) (map get_b chunks)) in
+          VL [VL (map enc_result rs); enc_state st]
+      | None => verr
+      end
+  | _ => verr
+  end.
+
 (* Extensions.parse_string on its own: [header; [names]] *)
 Definition e_parse_string (v : val) : val :=
   let '(h, es) := parse_string uspace (get_b v) in VL [VB h; VL (map VB es)].
@@ -94,5 +109,5 @@ Definition e_wire (v : val) : val := VB (wire (dec_script v)).
 Definition e_wf (v : val) : val := vbool (forallb wf_reply (dec_script v)).
 
 Definition entries : list entry :=
-  [("c10_run"%string, e_run); ("c10_parse_string"%string, e_parse_string);
+  [("c10_run"%string, e_run); ("c10_final"%string, e_final); ("c10_parse_string"%string, e_parse_string);
    ("c10_wire"%string, e_wire); ("c10_wf"%string, e_wf)].
